@@ -31,6 +31,9 @@ pub struct Cfg {
     /// cw-multi-test's Empty-to-custom conversion of responses); the finished scenario is passed through
     /// `sanitize_wrapped` (no custom sub-message in a program that can run on such a contract)
     pub wrapped_codes: bool,
+    /// top-level calls are often a Migrate that is AUTHORISED (sent by the admin the setup gave the even-numbered
+    /// contracts, to a code that has a migrate entry point) and whose program has sub-messages with replies
+    pub migrate_bias: bool,
 }
 impl Default for Cfg {
     fn default() -> Self {
@@ -49,6 +52,7 @@ impl Default for Cfg {
             block_changes: true,
             probe_funds: false,
             set_remove_bias: false,
+            migrate_bias: false,
             wrapped_codes: false,
         }
     }
@@ -232,6 +236,7 @@ impl<'a> G<'a> {
         let mut acts = vec![Action::Write(format!("m{}", node).into_bytes(), vec![1])];
         for _ in 0..self.rng.below(3) {
             let a = match self.rng.below(10) {
+                0..=3 if self.cfg.set_remove_bias => Action::Write(self.key(), vec![1 + self.rng.below(3) as u8]),
                 0..=3 => Action::Write(self.key(), vec![1 + self.rng.below(200) as u8]),
                 4 | 5 => Action::Remove(self.key()),
                 _ if self.cfg.queries => Action::Q(self.qact(0)),
@@ -242,9 +247,12 @@ impl<'a> G<'a> {
         if self.cfg.set_remove_bias && self.rng.chance(1, 3) {
             let k = self.key();
             acts.push(Action::Write(k.clone(), vec![9]));
-            acts.push(Action::Remove(k.clone()));
-            if self.rng.chance(1, 4) {
-                acts.push(Action::Write(k, vec![8]));
+            if self.rng.chance(1, 2) {
+                acts.push(Action::Remove(k.clone()));
+            }
+            if self.rng.chance(1, 2) {
+                // write the key BACK to a value it probably already has underneath (the setup writes 1, 2, 3 ...)
+                acts.push(Action::Write(k, vec![1 + self.rng.below(3) as u8]));
             }
         }
         if self.rng.below(100) < self.cfg.p_fail {
@@ -380,6 +388,17 @@ impl<'a> G<'a> {
     pub fn top_op(&mut self) -> TopOp {
         self.budget = self.cfg.max_nodes;
         let sender = self.some_user();
+        if self.cfg.migrate_bias && !self.contracts.is_empty() && self.rng.chance(1, 6) {
+            // setup: contract i has admin users[0] iff i is even
+            let i = 2 * (self.rng.below(((self.contracts.len() + 1) / 2) as u64) as usize);
+            let ct = self.contracts[i.min(self.contracts.len() - 1)].clone();
+            let with_migrate: Vec<u64> = self.codes.iter().filter(|c| c.has_migrate).map(|c| c.id).collect();
+            if !with_migrate.is_empty() {
+                let new_code = *self.rng.pick(&with_migrate);
+                let m = Msg::Migrate { c: ct, new_code, p: self.prog(1, true) };
+                return TopOp::Exec { sender: self.users[0].clone(), m };
+            }
+        }
         let c = self.rng.below(100);
         if c < 40 {
             TopOp::Exec { sender, m: self.msg(1) }
